@@ -186,6 +186,12 @@ Definition protocol_hold_x_b (s : st) (o : op_x) : bool :=
 Fixpoint protocol_run_x_b (s : st) (ops : list op_x) : bool :=
   match ops with [] => true | o :: ops' => protocol_hold_x_b s o && protocol_run_x_b (apply_op_x s o) ops' end.
 
+(* build-loop protocol for op_x (I4, I5c): that of the older layers; the new operations need none *)
+Definition protocol_ok_x (s : st) (o : op_x) : bool :=
+  match o with OpC o => protocol_ok_c s o | _ => true end.
+Fixpoint protocol_ok_run_x (s : st) (ops : list op_x) : bool :=
+  match ops with [] => true | o :: ops' => protocol_ok_x s o && protocol_ok_run_x (apply_op_x s o) ops' end.
+
 (* trace checker of the E2 correspondence for this alphabet *)
 Fixpoint first_bad_x (i : nat) (s : st) (tr : list (op_x * outcome * dump)) : option nat :=
   match tr with
